@@ -58,6 +58,7 @@ def exec_block(self, stmts, st, frame):
             if name is not None:
                 arr = st.env[name]
                 st.env[name] = Num(zero=True, shape=arr.shape, cplx=arr.cplx, taint=frozenset())
+                st.env[name].q = 'any'
         st = self.exec_stmt(s, st, frame)
     return st
 
@@ -260,6 +261,7 @@ def store_subscript(self, t, v, st, node):
             if self.frames[-1].strong.get(key):
                 # covering loop / first full overwrite: the old element type is dead
                 b0 = Num(zero=True, shape=base.shape, cplx=base.cplx, taint=frozenset())
+                b0.q = 'any'
             else:
                 b0 = base
             r = num_add(self, b0, nv, node, 'store')
@@ -273,6 +275,39 @@ def store_subscript(self, t, v, st, node):
                 new.rv = True if nv.rv and False else None
             new.nonneg = (b0.nonneg or b0.zero) and nv.nonneg
             new.role = base.role
+            if self.d4:
+                from . import charge as Q
+                from . import segmap
+                from .prims import _int_aff
+                new.q = None
+                bq = 'any' if (b0.zero and base.q in (None, 'any')) else b0.q
+                shp = base.shape
+                if shp is not None and len(shp) == 1:
+                    if isinstance(idx, SliceV):
+                        stp = 1
+                        okq = True
+                        if idx.step is not None:
+                            sa_ = _int_aff(idx.step)
+                            if sa_ is not None and sa_.is_const() and int(sa_.c) in (1, -1):
+                                stp = int(sa_.c)
+                            else:
+                                okq = False
+                        lo_abs = None
+                        if okq and shp[0] is not None:
+                            if idx.lo is None:
+                                lo_abs = Aff(0) if stp == 1 else shp[0] - 1
+                            else:
+                                la = _int_aff(idx.lo)
+                                lo_abs = segmap.norm_index(la, shp[0]) if la is not None else None
+                        if okq:
+                            new.q = Q.q_store_slice(self, bq, lo_abs, stp, nv.q, node)
+                    else:
+                        ia_ = _asint(idx)
+                        ab = ia_.a if ia_ is not None else None
+                        if ab is not None and shp[0] is not None:
+                            ab2 = segmap.norm_index(ab, shp[0])
+                            ab = ab2 if ab2 is not None else ab
+                        new.q = Q.q_store_scalar(self, bq, ab, nv.q, node)
             new.view_of = base.view_of
             new.mirror = nv.mirror if (b0.zero or b0.mirror == nv.mirror) else False
             if nv.zero:
@@ -340,15 +375,19 @@ def s_If(self, s, st, frame):
     self.pc = self.pc | taint_of(c)
     abrupt = False
     raised = False
+    sta, stb = st.fork(), st.fork()
+    refine = None
+    if self.d4:
+        refine = _refine_equal(self, s.test, sta, stb)
     try:
         frame.last_end = None
-        a = self.exec_block(s.body, st.fork(), frame)
+        a = self.exec_block(s.body, sta, frame)
         if a is None and frame.last_end in ('break', 'continue', 'return'):
             abrupt = True
         if a is None and frame.last_end == 'raise':
             raised = True
         frame.last_end = None
-        b = self.exec_block(s.orelse, st.fork(), frame)
+        b = self.exec_block(s.orelse, stb, frame)
         if b is None and frame.last_end in ('break', 'continue', 'return'):
             abrupt = True
         if b is None and frame.last_end == 'raise':
@@ -363,7 +402,76 @@ def s_If(self, s, st, frame):
             self.pc = save | frozenset(l for l in taint_of(c) if isinstance(l, str) and l.startswith('V:'))
         else:
             self.pc = save
+    if refine is not None and a is not None and b is not None:
+        _reconcile(refine, a, b)
     return join_st(a, b)
+
+
+def _refine_equal(self, test, st_true, st_false):
+    """`if k == c` on a loop symbol k: inside the true arm every charge that mentions k is evaluated at k = c"""
+    if not (isinstance(test, ast.Compare) and len(test.ops) == 1 and isinstance(test.left, ast.Name)):
+        return
+    name = test.left.id
+    v = st_true.env.get(name)
+    if not (isinstance(v, IntV) and v.a is not None and len(v.a.t) == 1 and v.a.c == 0):
+        return
+    sym = list(v.a.t)[0]
+    if sym not in Aff.BOUNDS:
+        return
+    try:
+        c = self.eval(test.comparators[0], st_true)
+    except PathEnd:
+        return
+    ic = _asint(c)
+    if ic is None or ic.a is None:
+        return
+    target = st_true if isinstance(test.ops[0], ast.Eq) else (st_false if isinstance(test.ops[0], ast.NotEq) else None)
+    if target is None:
+        return
+    from . import charge as Q
+    m = {sym: ic.a}
+    target.env[name] = Const(int(ic.a.c)) if ic.a.is_const() else IntV(ic.a)
+    result = (m, target is st_true, name, v)
+    for k_, val in list(target.env.items()):
+        if isinstance(val, Num) and val.q is not None and val.q != 'any':
+            q = val.q
+            if isinstance(q, Aff) and sym in q.t:
+                nv = val.copy(seg=val.seg, segax=val.segax)
+                nv.uid = val.uid
+                nv.q = q.subs(m)
+                target.env[k_] = nv
+            elif Q.is_lin(q) and sym in q[2].t:
+                nv = val.copy(seg=val.seg, segax=val.segax)
+                nv.uid = val.uid
+                nv.q = Q.lin(q[1], q[2].subs(m))
+                target.env[k_] = nv
+    return result
+
+
+def _reconcile(refine, sa, sb):
+    """after `if k == c: ... else: ...`: a charge computed in the special arm that is the general arm's charge
+    evaluated at k = c is that general charge"""
+    from . import charge as Q
+    m, true_is_special, name, kval = refine
+    special, general = (sa, sb) if true_is_special else (sb, sa)
+    special.env[name] = kval
+    for k_, va in list(special.env.items()):
+        vb = general.env.get(k_)
+        if not (isinstance(va, Num) and isinstance(vb, Num)):
+            continue
+        qa, qb = va.q, vb.q
+        if qa is None or qb is None or qa == 'any' or qb == 'any' or qa == qb:
+            continue
+        gen_at = None
+        if isinstance(qb, Aff):
+            gen_at = qb.subs(m)
+        elif Q.is_lin(qb):
+            gen_at = Q.lin(qb[1], qb[2].subs(m))
+        if gen_at is not None and gen_at == qa:
+            nv = va.copy(seg=va.seg, segax=va.segax)
+            nv.uid = va.uid
+            nv.q = qb
+            special.env[k_] = nv
 
 
 def iter_elem(self, it, node, loopnode=None):
@@ -518,6 +626,7 @@ def s_For(self, s, st, frame):
         frame.strong[name] = True
         arr = st.env[name]
         st.env[name] = Num(zero=True, shape=arr.shape, cplx=arr.cplx, taint=frozenset())
+        st.env[name].q = 'any'
 
     _el, _ln = self.iter_elem(it, s.iter, s)
     frame.loopn.append(_ln)
